@@ -21,7 +21,8 @@ EXTENDS BrushDefs
 CONSTANTS Dims,      \* set of grids <<X, Y>>
           Brushes,   \* set of brush names, see BrushOf
           Levels,    \* design values to enumerate (e.g. {-1, 1}; negative values via the Neg* definitions)
-          Variant    \* "paper" | "ignore_impossible" (negative instance)
+          Variant,   \* "paper" | "ignore_impossible" (negative instance)
+          DesignSet(_) \* designs to enumerate on a grid: AllLevels, or Case2Designs (witnesses for Case2)
 
 \* circular_brush(diameter) of the code for the diameters used; read back from the implementation by the
 \* conformance harness, which sends the offsets it actually found
@@ -43,7 +44,7 @@ A == Analysis(ts, tv, G, B, Variant)
 IsDone == Done(ts, tv, G, B)
 
 Init == /\ dm \in Dims /\ brush \in Brushes
-        /\ arr \in [ 1..(dm[1] * dm[2]) -> Levels ]
+        /\ arr \in DesignSet(dm)
         /\ ts = {} /\ tv = {} /\ steps = 0 /\ lastcase = 0
 
 Take(k, nts, ntv) == /\ ts' = nts /\ tv' = ntv /\ steps' = steps + 1 /\ lastcase' = k
@@ -83,6 +84,15 @@ RunLoopAgrees == IsDone => GeneratorOutput(arr, dm, B) = Output
 \* every iteration strictly adds touches and never withdraws one
 Grows == [][ /\ ts \subseteq ts' /\ tv \subseteq tv'
              /\ (ts' \cup tv') # (ts \cup tv) ]_<< ts, tv, steps >>
+
+\* Case2 needs room: no 2-level design on grids up to 3x5 / 4x4 reaches it.  The 4x5 design below (found with a
+\* numpy port of the loop; bit i of 551407 = pixel i in row-major order) does, with the plus brush d2; it and
+\* its 20 one-pixel variations are enumerated by MC_Brush_c2.cfg, and NeverCase2 must be violated there.
+AllLevels(d)  == [ 1..(d[1] * d[2]) -> Levels ]
+Witness45     == [ i \in 1..20 |-> IF (551407 \div (2 ^ (i - 1))) % 2 = 1 THEN 1 ELSE 0 - 1 ]
+Case2Designs(d) == IF d = <<4, 5>> THEN { Witness45 } \cup { [ Witness45 EXCEPT ![j] = 0 - @ ] : j \in 1..20 } ELSE {}
+NeverCase2    == lastcase # 2
+Dims45        == { <<4, 5>> }
 
 \* ---------------------------------- bounded instances ----------------------------------
 NegPos  == {-1, 1}
